@@ -458,6 +458,27 @@ fn select_n_nodes(
         dc_count -= 1;
     }
 
+    // The rotating cursors can leave the selection short even though enough nodes are
+    // available (i.e. a cursor landed on the local node or on an already selected node),
+    // so we top up with any remaining nodes, preferring the other data centers.
+    if selected_nodes.len() < n {
+        let remaining = data_centers
+            .iter()
+            .filter(|(dc, _)| dc.as_ref() != local_dc)
+            .chain(data_centers.iter().filter(|(dc, _)| dc.as_ref() == local_dc))
+            .flat_map(|(_, nodes)| nodes.get_nodes().iter().copied());
+
+        for node in remaining {
+            if selected_nodes.len() >= n {
+                break;
+            }
+
+            if node != local_node && !selected_nodes.contains(&node) {
+                selected_nodes.push(node);
+            }
+        }
+    }
+
     if selected_nodes.len() >= n {
         debug!(selected_node = ?selected_nodes, "Nodes have been selected for the given parameters.");
         Ok(selected_nodes)
